@@ -94,18 +94,19 @@ func classify(err error) int {
 	return 99
 }
 
-// staleByte is Gso.stale_byte: content of output buffer i at position j (relative to
-// offset) before the call. Never zero, no short period.
-func staleByte(gseed uint64, i, j int) byte {
-	return byte(1 + ((gseed+7*uint64(i)+uint64(j)*uint64(j+3))%65521)%255)
-}
-
-// staleAt gives the stale byte at absolute index a of buffer i.
-func staleAt(c *Case, i, a int) byte {
-	if a >= c.Offset {
-		return staleByte(c.GSeed, i, a-c.Offset)
+// staleFill writes the stale content of output buffer i (Gso.stale: a 16-bit xorshift
+// stream from offset on; another stream in front of offset). Never zero.
+func staleFill(c *Case, i int, buf []byte) {
+	stream := func(x uint16, b []byte) {
+		for j := range b {
+			b[j] = byte(1 + x&127)
+			x ^= x << 7
+			x ^= x >> 9
+			x ^= x << 8
+		}
 	}
-	return staleByte(c.GSeed+1, i, a+70000)
+	stream(uint16(1|(c.GSeed+7919*uint64(i))&0xffff), buf[c.Offset:])
+	stream(uint16(1|(c.GSeed+4001*uint64(i)+12345)&0xffff), buf[:c.Offset])
 }
 
 // runImpl runs the real code on buffers of equal size that, like the device's pooled and
@@ -128,11 +129,11 @@ func runImpl(c *Case) {
 		c.GSeed = 1 + uint64(h.Sum32()%1000000)
 	}
 	bufs := make([][]byte, c.NBufs)
+	stale := make([][]byte, c.NBufs)
 	for i := range bufs {
 		bufs[i] = make([]byte, c.Offset+c.Room)
-		for a := range bufs[i] {
-			bufs[i][a] = staleAt(c, i, a)
-		}
+		staleFill(c, i, bufs[i])
+		stale[i] = append([]byte(nil), bufs[i]...)
 	}
 	sizes := make([]int, c.NBufs)
 	for i := range sizes {
@@ -165,7 +166,7 @@ func runImpl(c *Case) {
 			c.Segs = append(c.Segs, append([]byte(nil), bufs[i][c.Offset:c.Offset+used]...))
 		}
 		for j, b := range bufs[i] {
-			if (j < c.Offset || j >= c.Offset+used) && b != staleAt(c, i, j) {
+			if (j < c.Offset || j >= c.Offset+used) && b != stale[i][j] {
 				c.Touched = true
 			}
 		}
@@ -412,6 +413,19 @@ func randSuper(r *rand.Rand) superSpec {
 	return s
 }
 
+// roomFor picks len(bufs[i]) - offset: the read always fits (no segment is longer than the
+// read), with 2..200 stale bytes behind it, and now and then a whole 64 KiB buffer.
+func roomFor(r *rand.Rand, rawLen int) int {
+	if r.Intn(10) == 0 {
+		return 65535 + r.Intn(3)
+	}
+	n := rawLen - 10
+	if n < 0 {
+		n = 0
+	}
+	return n + 2 + r.Intn(199)
+}
+
 func nsegOf(s superSpec) int {
 	if s.gso == 0 {
 		return 0
@@ -472,7 +486,8 @@ func udpZeroIn(c *Case, cs int) bool {
 func genSuper(r *rand.Rand) Case {
 	s := randSuper(r)
 	for {
-		c := Case{Gen: "super", Raw: buildSuper(r, s), NBufs: pickBufs(r, nsegOf(s)), Offset: offsets[r.Intn(len(offsets))], Room: 65535 + r.Intn(3)}
+		c := Case{Gen: "super", Raw: buildSuper(r, s), NBufs: pickBufs(r, nsegOf(s)), Offset: offsets[r.Intn(len(offsets))]}
+		c.Room = roomFor(r, len(c.Raw))
 		c.Info = superInfo(s, c.Gen)
 		runImpl(&c)
 		// the zero-UDP-checksum observation (finding F6) has its own dedicated scenario;
@@ -514,6 +529,9 @@ func genNone(r *rand.Rand) Case {
 	}
 	for {
 		c := Case{Gen: "none-csum", NBufs: 1 + r.Intn(3), Offset: offsets[r.Intn(len(offsets))], Room: 65535}
+		if r.Intn(4) != 0 {
+			c.Room = 0 // set below, once the read is known
+		}
 		c.Raw = buildPartial(r, v6, tcp, ihl, thl, paylen)
 		cs := int(binary.LittleEndian.Uint16(c.Raw[6:]))
 		c.Info = map[string]any{"kind": "none-csum", "cs": cs, "paylen": paylen, "nseg": 1}
@@ -534,6 +552,9 @@ func genNone(r *rand.Rand) Case {
 			r.Read(c.Raw[10:])
 			c.Info["kind"] = "none-plain"
 		}
+		if c.Room == 0 && c.Gen != "none-overflow" {
+			c.Room = roomFor(r, len(c.Raw))
+		}
 		runImpl(&c)
 		if !tcp && c.Raw[0]&needsCsum != 0 && udpZeroIn(&c, cs) {
 			continue
@@ -549,7 +570,7 @@ func genMalformed(r *rand.Rand) Case {
 		s.paylen = r.Intn(3000)
 	}
 	raw := buildSuper(r, s)
-	c := Case{Gen: "malformed", NBufs: pickBufs(r, nsegOf(s)), Offset: offsets[r.Intn(len(offsets))], Room: 65535 + 2}
+	c := Case{Gen: "malformed", NBufs: pickBufs(r, nsegOf(s)), Offset: offsets[r.Intn(len(offsets))], Room: roomFor(r, len(raw))}
 	plen := len(raw) - 10
 	cs, hl := s.cs(), s.hl()
 	m := r.Intn(14)
